@@ -5,6 +5,7 @@ decomposition of `handleDataMsg` into its suppression decision (`dropDecision`),
 `handleDataMsg` over `Spec.recipients`.
 -/
 import OsmoVerif.Lemmas.World
+import OsmoVerif.Lemmas.Trxd
 import OsmoVerif.Spec.WorldRouting
 
 namespace OsmoVerif.World
@@ -1188,326 +1189,47 @@ end OsmoVerif.World
 
 /-! ### codec facts about `RxMsg.validate` / `RxMsg.genMsg`
 
-Proved here directly from the definitions of `Model/Trxd.lean` because the TRXD worker's
-`Lemmas/Trxd.lean` (`RxMsg.validate_iff`, `RxMsg.genMsg_ok`) is not part of this clone; they are
-consequences of those theorems and can be replaced by them. -/
+Consequences of the TRXD worker's theorems (`Lemmas/Trxd.lean`: `RxMsg.validate_iff`,
+`RxMsg.genMsg_ok`, `RxMsg.genMsg_layout`, `RxMsg.validate_err`), in the shape the burst path uses. -/
 
 namespace OsmoVerif.World.Codec
-open OsmoVerif OsmoVerif.Trxd
-
-theorem knownVersions_contains (v : Int) : Gen.Trxd.knownVersions.contains v = true ↔ (v = 0 ∨ v = 1) := by
-  simp only [Gen.Trxd.knownVersions, List.contains_cons, List.contains_nil, Bool.or_false, Bool.or_eq_true,
-    beq_iff_eq]
-
-theorem validateCommon_ok (ver : Int) (fn tn : Option Int) (h : validateCommon ver fn tn = .ok ()) :
-    (ver = 0 ∨ ver = 1) ∧ ∃ f t, fn = some f ∧ tn = some t ∧ 0 ≤ f ∧ f < 2715648 ∧ 0 ≤ t ∧ t ≤ 7 := by
-  unfold validateCommon at h
-  split at h
-  · cases h
-  · rename_i hv
-    split at h
-    · cases h
-    · rename_i f
-      split at h
-      · cases h
-      · rename_i hf
-        split at h
-        · cases h
-        · rename_i t
-          split at h
-          · cases h
-          · rename_i ht
-            simp only [Gen.Trxd.gsmHyperframe] at hf
-            refine ⟨(knownVersions_contains ver).1 (by simpa using hv), f, t, rfl, rfl, ?_, ?_, ?_, ?_⟩ <;> omega
-
-theorem validateCommon_err (ver : Int) (fn tn : Option Int) (e : Trxd.Exc)
-    (h : validateCommon ver fn tn = .error e) : e = .valueError := by
-  unfold validateCommon at h
-  repeat' split at h
-  all_goals cases h
-  all_goals rfl
-
-theorem genCommon_ok (ver : Int) (f t : Int) (hv : ver = 0 ∨ ver = 1) (h0 : 0 ≤ f) (h1 : f < 2715648)
-    (_h2 : 0 ≤ t) (_h3 : t ≤ 7) : ∃ b, genCommon ver (some f) (some t) = .ok b := by
-  unfold genCommon bytearrayAppend packBE32u
-  have a : 0 ≤ 16 * ver + t % 8 ∧ 16 * ver + t % 8 < 256 := by omega
-  have b : 0 ≤ f ∧ f < 4294967296 := by omega
-  simp only [a, b, and_self, if_true]
-  exact ⟨_, rfl⟩
-
-theorem validateMeas_ok (m : RxMsg) (h : m.validateMeas = .ok ()) :
-    ∃ r t, m.rssi = some r ∧ m.toa256 = some t ∧ -120 ≤ r ∧ r ≤ -47 ∧ -32768 ≤ t ∧ t ≤ 32767 := by
-  unfold RxMsg.validateMeas at h
-  split at h
-  · cases h
-  · rename_i r hr
-    split at h
-    · cases h
-    · rename_i h1
-      split at h
-      · cases h
-      · rename_i t ht
-        split at h
-        · cases h
-        · rename_i h2
-          simp only [Gen.Trxd.rssiMin, Gen.Trxd.rssiMax] at h1
-          simp only [Gen.Trxd.toa256Min, Gen.Trxd.toa256Max] at h2
-          refine ⟨r, t, hr, ht, ?_, ?_, ?_, ?_⟩ <;> omega
-
-theorem validateMeas_err (m : RxMsg) (e : Trxd.Exc) (h : m.validateMeas = .error e) : e = .valueError := by
-  unfold RxMsg.validateMeas at h
-  repeat' split at h
-  all_goals cases h
-  all_goals rfl
-
-theorem validateCi_ok (m : RxMsg) (h : m.validateCi = .ok ()) (hv : m.ver ≥ 1) :
-    ∃ c, m.ci = some c ∧ -1280 ≤ c ∧ c ≤ 1280 := by
-  unfold RxMsg.validateCi at h
-  simp only [hv, if_true] at h
-  split at h
-  · cases h
-  · rename_i c hc
-    split at h
-    · cases h
-    · rename_i h1
-      simp only [Gen.Trxd.ciMin, Gen.Trxd.ciMax] at h1
-      exact ⟨c, hc, by omega, by omega⟩
-
-theorem validateCi_err (m : RxMsg) (e : Trxd.Exc) (h : m.validateCi = .error e) : e = .valueError := by
-  unfold RxMsg.validateCi at h
-  repeat' split at h
-  all_goals cases h
-  all_goals rfl
-
-theorem tscRange_contains (v : Int) : Gen.Trxd.tscRange.contains v = true ↔ (0 ≤ v ∧ v ≤ 7) := by
-  simp only [Gen.Trxd.tscRange, List.contains_cons, List.contains_nil, Bool.or_false, Bool.or_eq_true,
-    beq_iff_eq]
-  omega
-
-theorem validateMts_ok (m : RxMsg) (h : m.validateMts = .ok ()) (hv : m.ver ≥ 1) (hn : m.nopeInd = false) :
-    ∃ mod set tsc, m.modType = some mod ∧ m.tscSet = some set ∧ m.tsc = some tsc ∧
-      0 ≤ set ∧ set < 4 ∧ 0 ≤ tsc ∧ tsc ≤ 7 := by
-  unfold RxMsg.validateMts at h
-  simp only [hv, hn, and_self, if_true] at h
-  split at h
-  · cases h
-  · rename_i mod hmod
-    split at h
-    · cases h
-    · rename_i set hset
-      by_cases hc : (if mod = Modulation.gmsk then ¬(0 ≤ set ∧ set < 4) else ¬(0 ≤ set ∧ set < 2))
-      · rw [if_pos hc] at h; cases h
-      rw [if_neg hc] at h
-      have hset' : 0 ≤ set ∧ set < 4 := by
-        by_cases hg : mod = Modulation.gmsk
-        · simp only [hg, if_true] at hc; omega
-        · simp only [hg, if_false] at hc; omega
-      have h' := h
-      split at h'
-      · cases h'
-      · rename_i tsc htsc
-        split at h'
-        · cases h'
-        · rename_i h2
-          have h2' := (tscRange_contains tsc).1 (by simpa using h2)
-          exact ⟨mod, set, tsc, hmod, hset, htsc, hset'.1, hset'.2, h2'.1, h2'.2⟩
-
-theorem validateMts_err (m : RxMsg) (e : Trxd.Exc) (h : m.validateMts = .error e) : e = .valueError := by
-  unfold RxMsg.validateMts at h
-  repeat' split at h
-  all_goals cases h
-  all_goals rfl
-
-theorem coding_le : ∀ mod : Modulation, mod.coding ≤ 12 := by decide
-
-theorem mts_lt (tsc set : Int) (mod : Modulation) (h0 : 0 ≤ set) (h1 : set < 4) :
-    ((((tsc % 8).toNat ||| (mod.coding <<< 3)) ||| (set.toNat <<< 3) : Nat) : Int) < 256 := by
-  have a : (tsc % 8).toNat < 2 ^ 7 := by omega
-  have b : mod.coding <<< 3 < 2 ^ 7 := by
-    have := coding_le mod
-    rw [Nat.shiftLeft_eq]; omega
-  have c : set.toNat <<< 3 < 2 ^ 7 := by
-    rw [Nat.shiftLeft_eq]; omega
-  have := Nat.or_lt_two_pow (Nat.or_lt_two_pow a b) c
-  omega
-
-theorem bytearrayAppend_ok (buf : Bytes) (x : Int) (h0 : 0 ≤ x) (h1 : x < 256) :
-    bytearrayAppend buf x = .ok (buf ++ [x.toNat]) := by
-  unfold bytearrayAppend
-  rw [if_pos ⟨h0, h1⟩]
-
-theorem appendMts_ok (m : RxMsg) (buf : Bytes) (hm : m.validateMts = .ok ()) (hv : m.ver ≥ 1) :
-    ∃ b, m.appendMts buf = .ok b := by
-  unfold RxMsg.appendMts
-  by_cases hn : m.nopeInd = true
-  · rw [if_pos hn, bytearrayAppend_ok _ _ (by decide) (by decide)]
-    exact ⟨_, rfl⟩
-  · have hn' : m.nopeInd = false := by simpa using hn
-    obtain ⟨mod, set, tsc, h1, h2, h3, h4, h5, _, _⟩ := validateMts_ok m hm hv hn'
-    have hlt := mts_lt tsc set mod h4 h5
-    have hs : ¬ set < 0 := by omega
-    rw [if_neg hn, h1, h2, h3]
-    dsimp only
-    rw [if_neg hs, bytearrayAppend_ok _ _ (by omega) hlt]
-    exact ⟨_, rfl⟩
-
-theorem packBE16s_ok (x : Int) (h0 : -32768 ≤ x) (h1 : x ≤ 32767) : ∃ b, packBE16s x = .ok b := by
-  unfold packBE16s
-  rw [if_pos ⟨h0, h1⟩]
-  exact ⟨_, rfl⟩
-
-theorem appendHdrTo_ok (m : RxMsg) (buf : Bytes) (h1 : m.validateMeas = .ok ())
-    (h2 : m.validateMts = .ok ()) (h3 : m.validateCi = .ok ()) : ∃ b, m.appendHdrTo buf = .ok b := by
-  obtain ⟨r, t, hr, ht, r0, r1, t0, t1⟩ := validateMeas_ok m h1
-  obtain ⟨tb, htb⟩ := packBE16s_ok t t0 t1
-  unfold RxMsg.appendHdrTo
-  rw [hr, ht]
-  dsimp only
-  rw [bytearrayAppend_ok _ _ (by omega) (by omega)]
-  dsimp only
-  rw [htb]
-  dsimp only
-  by_cases hv : m.ver ≥ 1
-  · obtain ⟨c, hc, c0, c1⟩ := validateCi_ok m h3 hv
-    obtain ⟨cb, hcb⟩ := packBE16s_ok c (by omega) (by omega)
-    obtain ⟨mb, hmb⟩ := appendMts_ok m (buf ++ [(-r).toNat] ++ tb) h2 hv
-    simp only [hv, if_true, hmb, hc, hcb]
-    exact ⟨_, rfl⟩
-  · simp only [hv, if_false]
-    exact ⟨_, rfl⟩
-
-theorem tabSbit2usbit_length : Gen.Trxd.tabSbit2usbit.length = 256 := by decide +kernel
-
-theorem translateGo_total {α : Type} (tab : List α) (hl : tab.length = 256) (xs : Bytes)
-    (h : ∀ x ∈ xs, x < 256) : ∃ r, translateGo tab xs = .ok r := by
-  induction xs with
-  | nil => exact ⟨[], rfl⟩
-  | cons x xs ih =>
-    have hx : x < tab.length := by rw [hl]; exact h x (List.mem_cons_self ..)
-    obtain ⟨r, hr⟩ := ih (fun y hy => h y (List.mem_cons_of_mem _ hy))
-    simp only [translateGo, List.getElem?_eq_getElem hx, hr]
-    exact ⟨_, rfl⟩
-
-theorem sbit2usbit_total (b : List Int) : ∃ u, sbit2usbit b = .ok u := by
-  unfold sbit2usbit translate
-  simp only [tabSbit2usbit_length, ne_eq, not_true, if_false]
-  apply translateGo_total _ tabSbit2usbit_length
-  intro x hx
-  obtain ⟨s, _, rfl⟩ := List.mem_map.1 hx
-  unfold sbyte; omega
+open OsmoVerif OsmoVerif.Trxd OsmoVerif.Spec.TrxdRanges
 
 /-- after a successful `validate()`, `gen_msg()` cannot raise -/
 theorem genMsg_ok_of_validate (m : RxMsg) (l : Bool) (h : m.validate = .ok ()) :
-    ∃ b, m.genMsg l = .ok b := by
-  have h' := h
-  unfold RxMsg.validate at h'
-  split at h'
-  · cases h'
-  · rename_i hc
-    split at h'
-    · cases h'
-    · rename_i hmeas
-      split at h'
-      · cases h'
-      · rename_i hmts
-        split at h'
-        · cases h'
-        · rename_i hci
-          obtain ⟨hv, f, t, hf, ht, f0, f1, t0, t1⟩ := validateCommon_ok _ _ _ hc
-          obtain ⟨cb, hcb⟩ := genCommon_ok m.ver f t hv f0 f1 t0 t1
-          obtain ⟨hb, hhb⟩ := appendHdrTo_ok m cb hmeas hmts hci
-          unfold RxMsg.genMsg
-          simp only [h, hf, ht, hcb, hhb]
-          cases hbu : m.burst with
-          | none => exact ⟨_, rfl⟩
-          | some bits =>
-            obtain ⟨u, hu⟩ := sbit2usbit_total bits
-            simp only [hu]
-            exact ⟨_, rfl⟩
+    ∃ b, m.genMsg l = .ok b :=
+  RxMsg.genMsg_ok m l ((RxMsg.validate_iff m).1 h)
 
+/-- a validation failure is what `gen_msg()` raises -/
 theorem genMsg_err_of_validate (m : RxMsg) (l : Bool) (e : Trxd.Exc) (h : m.validate = .error e) :
     m.genMsg l = .error e := by
-  unfold RxMsg.genMsg
-  simp only [h]
+  simp only [RxMsg.genMsg, h, bind, Except.bind]
 
-theorem validate_err (m : RxMsg) (e : Trxd.Exc) (h : m.validate = .error e) : e = .valueError := by
-  unfold RxMsg.validate at h
-  split at h
-  · rename_i e' he; cases h; exact validateCommon_err _ _ _ _ he
-  · split at h
-    · rename_i e' he; cases h; exact validateMeas_err _ _ he
-    · split at h
-      · rename_i e' he; cases h; exact validateMts_err _ _ he
-      · rename_i hmts
-        split at h
-        · rename_i e' he; cases h; exact validateCi_err _ _ he
-        · unfold RxMsg.validateBurst at h
-          split at h
-          · unfold RxMsg.validateBurstV0 at h
-            repeat' split at h
-            all_goals cases h
-            all_goals rfl
-          · split at h
-            · rename_i hv
-              unfold RxMsg.validateBurstV1 at h
-              split at h
-              · cases h
-              · cases h; rfl
-              · cases h; rfl
-              · rename_i hn _
-                obtain ⟨mod, _, _, hmod, _⟩ := validateMts_ok m hmts hv hn
-                rw [hmod] at h
-                dsimp only at h
-                split at h
-                · cases h; rfl
-                · cases h
-            · cases h
+/-- `validate()` raises nothing but ValueError -/
+theorem validate_err (m : RxMsg) (e : Trxd.Exc) (h : m.validate = .error e) : e = .valueError :=
+  RxMsg.validate_err m e h
 
 /-- legacy mode only appends the two padding octets of version 0 -/
 theorem genMsg_legacy (m : RxMsg) :
     m.genMsg true = match m.genMsg false with
       | .ok b => .ok (if m.ver = 0 then b ++ [0, 0] else b)
       | .error e => .error e := by
-  unfold RxMsg.genMsg
-  repeat' split
-  all_goals simp_all
-theorem validateCommon_of (ver fn tn : Int) (hv : ver = 0 ∨ ver = 1) (f0 : 0 ≤ fn) (f1 : fn < 2715648)
-    (t0 : 0 ≤ tn) (t1 : tn ≤ 7) : validateCommon ver (some fn) (some tn) = .ok () := by
-  unfold validateCommon
-  have a : ¬ (fn < 0 ∨ fn ≥ Gen.Trxd.gsmHyperframe) := by simp only [Gen.Trxd.gsmHyperframe]; omega
-  have b : ¬ (tn < 0 ∨ tn > 7) := by omega
-  have c : Gen.Trxd.knownVersions.contains ver = true := (knownVersions_contains ver).2 hv
-  simp only [a, b, c, not_true, if_false]
-
-theorem validateMeas_of (m : RxMsg) (r t : Int) (hr : m.rssi = some r) (ht : m.toa256 = some t)
-    (r0 : -120 ≤ r) (r1 : r ≤ -47) (t0 : -32768 ≤ t) (t1 : t ≤ 32767) : m.validateMeas = .ok () := by
-  unfold RxMsg.validateMeas
-  have a : ¬ (r < Gen.Trxd.rssiMin ∨ r > Gen.Trxd.rssiMax) := by
-    simp only [Gen.Trxd.rssiMin, Gen.Trxd.rssiMax]; omega
-  have b : ¬ (t < Gen.Trxd.toa256Min ∨ t > Gen.Trxd.toa256Max) := by
-    simp only [Gen.Trxd.toa256Min, Gen.Trxd.toa256Max]; omega
-  simp only [hr, ht, a, b, if_false]
-
-theorem validateCi_of (m : RxMsg) (c : Int) (hc : m.ci = some c) (c0 : -1280 ≤ c) (c1 : c ≤ 1280) :
-    m.validateCi = .ok () := by
-  unfold RxMsg.validateCi
-  have a : ¬ (c < Gen.Trxd.ciMin ∨ c > Gen.Trxd.ciMax) := by
-    simp only [Gen.Trxd.ciMin, Gen.Trxd.ciMax]; omega
-  split
-  · simp only [hc, a, if_false]
-  · rfl
-
-theorem validateMts_of (m : RxMsg) (mod : Modulation) (set tsc : Int) (hmod : m.modType = some mod)
-    (hset : m.tscSet = some set) (htsc : m.tsc = some tsc) (s0 : set = 0) (t0 : 0 ≤ tsc) (t1 : tsc ≤ 7) :
-    m.validateMts = .ok () := by
-  unfold RxMsg.validateMts
-  split
-  · have a : ¬ (if mod = Modulation.gmsk then ¬(0 ≤ set ∧ set < 4) else ¬(0 ≤ set ∧ set < 2)) := by
-      split <;> omega
-    have b : Gen.Trxd.tscRange.contains tsc = true := (tscRange_contains tsc).2 ⟨t0, t1⟩
-    simp only [hmod, hset, htsc, b, not_true, if_false]
-    rw [if_neg a]
-  · rfl
+  simp only [RxMsg.genMsg, bind, Except.bind, pure, Except.pure, appendLegacy]
+  cases m.validate with
+  | error e => rfl
+  | ok u =>
+    dsimp only
+    cases genCommon m.ver m.fn m.tn with
+    | error e => rfl
+    | ok b0 =>
+      dsimp only
+      cases m.appendHdrTo b0 with
+      | error e => rfl
+      | ok b1 =>
+        dsimp only
+        cases m.appendBurstTo b1 with
+        | error e => rfl
+        | ok b2 => simp
 
 /-- a version-0 burst indication with in-range header fields and a 148/444 soft-bit burst validates -/
 theorem validate_v0 (m : RxMsg) (fn tn r t : Int) (b : List Int) (hver : m.ver = 0)
@@ -1515,26 +1237,14 @@ theorem validate_v0 (m : RxMsg) (fn tn r t : Int) (b : List Int) (hver : m.ver =
     (n0 : 0 ≤ tn) (n1 : tn ≤ 7) (hr : m.rssi = some r) (ht : m.toa256 = some t)
     (r0 : -120 ≤ r) (r1 : r ≤ -47) (t0 : -32768 ≤ t) (t1 : t ≤ 32767)
     (hb : m.burst = some b) (hl : b.length = 148 ∨ b.length = 444) : m.validate = .ok () := by
-  unfold RxMsg.validate
-  rw [hver, hfn, htn, validateCommon_of 0 fn tn (.inl rfl) f0 f1 n0 n1]
-  dsimp only
-  rw [validateMeas_of m r t hr ht r0 r1 t0 t1]
-  dsimp only
-  have hv : ¬ (m.ver ≥ 1) := by omega
-  have e1 : m.validateMts = .ok () := by
-    unfold RxMsg.validateMts
-    rw [if_neg (fun h => hv h.1)]
-  have e2 : m.validateCi = .ok () := by
-    unfold RxMsg.validateCi
-    rw [if_neg hv]
-  rw [e1, e2]
-  dsimp only
-  unfold RxMsg.validateBurst RxMsg.validateBurstV0
-  rw [if_pos hver, hb]
-  dsimp only
-  have : ¬¬ (b.length = Gen.Trxd.gmskBurstLen ∨ b.length = Gen.Trxd.edgeBurstLen) := by
-    simp only [Gen.Trxd.gmskBurstLen, Gen.Trxd.edgeBurstLen]; omega
-  rw [if_neg this]
+  rw [RxMsg.validate_iff]
+  refine ⟨.inl hver, ?_, ?_, ?_, ?_, ?_, ?_⟩
+  · rw [hfn]; show 0 ≤ fn ∧ fn ≤ 2715647; omega
+  · rw [htn]; exact ⟨n0, n1⟩
+  · rw [hr]; exact ⟨r0, r1⟩
+  · rw [ht]; exact ⟨t0, t1⟩
+  · intro _; rw [hb]; exact hl
+  · intro h; rw [hver] at h; cases h
 
 /-- a version-1 burst indication with in-range fields validates -/
 theorem validate_v1 (m : RxMsg) (fn tn r t c set tsc : Int) (mod : Modulation) (b : List Int)
@@ -1545,22 +1255,21 @@ theorem validate_v1 (m : RxMsg) (fn tn r t c set tsc : Int) (mod : Modulation) (
     (hmod : m.modType = some mod) (hset : m.tscSet = some set) (htsc : m.tsc = some tsc)
     (s0 : set = 0) (q0 : 0 ≤ tsc) (q1 : tsc ≤ 7)
     (hn : m.nopeInd = false) (hb : m.burst = some b) (hl : b.length = mod.bl) : m.validate = .ok () := by
-  unfold RxMsg.validate
-  rw [hver, hfn, htn, validateCommon_of 1 fn tn (.inr rfl) f0 f1 n0 n1]
-  dsimp only
-  rw [validateMeas_of m r t hr ht r0 r1 t0 t1]
-  dsimp only
-  rw [validateMts_of m mod set tsc hmod hset htsc s0 q0 q1, validateCi_of m c hc c0 c1]
-  dsimp only
-  unfold RxMsg.validateBurst RxMsg.validateBurstV1
-  have h0 : ¬ (m.ver = 0) := by omega
-  have h1 : m.ver ≥ 1 := by omega
-  rw [if_neg h0, if_pos h1, hn, hb]
-  dsimp only
-  rw [hmod]
-  dsimp only
-  rw [if_neg (by omega)]
-
+  rw [RxMsg.validate_iff]
+  refine ⟨.inr hver, ?_, ?_, ?_, ?_, ?_, ?_⟩
+  · rw [hfn]; show 0 ≤ fn ∧ fn ≤ 2715647; omega
+  · rw [htn]; exact ⟨n0, n1⟩
+  · rw [hr]; exact ⟨r0, r1⟩
+  · rw [ht]; exact ⟨t0, t1⟩
+  · intro h; rw [hver] at h; cases h
+  · intro _
+    refine ⟨by rw [hc]; exact ⟨c0, c1⟩, ?_⟩
+    rw [hn]
+    simp only [Bool.false_eq_true, if_false, InRangeMts, hmod, hset, htsc, hb]
+    refine ⟨?_, ⟨q0, q1⟩, ?_⟩
+    · subst s0; split <;> exact ⟨by decide, by decide⟩
+    · show modLen mod.coding = some b.length
+      rw [modLen_coding, hl]
 end OsmoVerif.World.Codec
 
 namespace OsmoVerif.World
@@ -1654,7 +1363,7 @@ theorem dgramsOf_genMsg (r : Trx) (m : Trxd.RxMsg) (l : Bool) :
 /-! ### the NOPE indication -/
 
 section
-open OsmoVerif.Trxd
+open OsmoVerif.Trxd OsmoVerif.Spec.TrxdRanges
 /-- octets of a NOPE.ind on a version-1 link: header, RSSI 110, ToA256 0, MTS 0x80, C/I −30 -/
 theorem isNope_genMsg (cm : RxMsg) (fn tn : Int) (l : Bool) (h : Spec.IsNope 1 (some fn) (some tn) cm)
     (f0 : 0 ≤ fn) (f1 : fn < 2715648) (t0 : 0 ≤ tn) (t1 : tn ≤ 7) :
@@ -1663,42 +1372,25 @@ theorem isNope_genMsg (cm : RxMsg) (fn tn : Int) (l : Bool) (h : Spec.IsNope 1 (
   obtain ⟨h1, h2, h3, h4, h5, h6, h7, h8⟩ := h
   dsimp only at h1 h2 h3 h4 h5 h6 h7 h8
   subst h1 h2 h3 h4 h5 h6 h7 h8
-  have hc : validateCommon 1 (some fn) (some tn) = .ok () := by
-    unfold validateCommon
-    have a : ¬ (fn < 0 ∨ fn ≥ Gen.Trxd.gsmHyperframe) := by simp only [Gen.Trxd.gsmHyperframe]; omega
-    have b : ¬ (tn < 0 ∨ tn > 7) := by omega
-    have c : Gen.Trxd.knownVersions.contains (1 : Int) = true := by decide
-    simp only [a, b, c, not_true, if_false]
-  have hv : RxMsg.validate ⟨1, some fn, some tn, some (-110), some 0, mod, true, set, tsc, some (-30), none⟩ = .ok () := by
-    unfold RxMsg.validate
-    rw [hc]
-    rfl
-  refine ⟨hv, ?_⟩
-  unfold RxMsg.genMsg
-  rw [hv]
-  have hg : genCommon 1 (some fn) (some tn) = .ok [16 + tn.toNat, fn.toNat / 16777216 % 256,
-      fn.toNat / 65536 % 256, fn.toNat / 256 % 256, fn.toNat % 256] := by
-    unfold genCommon
-    dsimp only
-    rw [Codec.bytearrayAppend_ok _ _ (by omega) (by omega)]
-    dsimp only
-    unfold packBE32u
-    rw [if_pos ⟨f0, by omega⟩]
-    have : (16 * 1 + tn % 8).toNat = 16 + tn.toNat := by omega
-    simp only [this, List.nil_append, List.cons_append]
+  have hin : InRangeRx ⟨1, some fn, some tn, some (-110), some 0, mod, true, set, tsc, some (-30), none⟩ := by
+    refine ⟨.inr rfl, ?_, ?_, ?_, ?_, ?_, ?_⟩
+    · show 0 ≤ fn ∧ fn ≤ 2715647; omega
+    · exact ⟨t0, t1⟩
+    · show (-120 : Int) ≤ -110 ∧ (-110 : Int) ≤ -47; decide
+    · show (-32768 : Int) ≤ 0 ∧ (0 : Int) ≤ 32767; decide
+    · intro h; cases h
+    · intro _
+      refine ⟨?_, ?_⟩
+      · show (-1280 : Int) ≤ -30 ∧ (-30 : Int) ≤ 1280; decide
+      · simp only [if_true]
+  refine ⟨(RxMsg.validate_iff _).2 hin, ?_⟩
+  obtain ⟨f, hf, hg⟩ := RxMsg.genMsg_layout _ l hin (by intro b hb; cases hb)
   rw [hg]
-  have ha : RxMsg.appendHdrTo ⟨1, some fn, some tn, some (-110), some 0, mod, true, set, tsc, some (-30), none⟩
-      [16 + tn.toNat, fn.toNat / 16777216 % 256, fn.toNat / 65536 % 256, fn.toNat / 256 % 256, fn.toNat % 256]
-      = .ok (Spec.nopeOctets fn.toNat tn.toNat) := by
-    unfold RxMsg.appendHdrTo
-    dsimp only
-    rw [Codec.bytearrayAppend_ok _ _ (by decide) (by decide)]
-    rfl
-  dsimp only
-  rw [ha]
-  dsimp only
-  have : ¬ ((l = true) ∧ (1 : Int) = 0) := by omega
-  simp only [this, if_false]
+  have hc : ¬ ¬ ((0 : Int) ≤ 1 ∧ 0 ≤ fn ∧ 0 ≤ tn) := by omega
+  simp only [RxMsg.fields?, hc, if_false, if_true, Option.some.injEq] at hf
+  subst hf
+  simp [Spec.nopeOctets, Spec.TrxdLayout.layoutRx, Spec.TrxdLayout.hdr, Spec.TrxdLayout.be32,
+    Spec.TrxdLayout.s16be, Spec.TrxdLayout.mtsOctet, Spec.TrxdLayout.pad]
 end
 
 /-! ### a stream of bursts handed to one receiving transceiver (C18) -/
